@@ -12,7 +12,6 @@ package sched
 import (
 	"context"
 	"fmt"
-	"strings"
 	"sync"
 	"time"
 
@@ -332,8 +331,12 @@ func (r *FetchRun) Drive(api *fakeipfs.API, schedule []Choice, start func(), can
 			delete(r.fetched, h)
 			close(ch)
 		}
-		deadline := time.Now().Add(3 * time.Second)
-		for !finished && time.Now().Before(deadline) {
+		// up to 60 s as long as some fetcher goroutine is still runnable (a loaded machine), 3 s once all are blocked
+		start := time.Now()
+		for !finished && time.Since(start) < 60*time.Second {
+			if time.Since(start) > 3*time.Second && fetcherGoroutinesAllBlocked() {
+				break
+			}
 			r.cond.Wait()
 		}
 		if finished {
@@ -468,6 +471,9 @@ func (r *FetchRun) Drive(api *fakeipfs.API, schedule []Choice, start func(), can
 				break
 			}
 			if len(r.gate) == 0 && len(r.fetched) == 0 {
+				if !fetcherGoroutinesAllBlocked() {
+					continue // somebody is still runnable: slow, not hung
+				}
 				r.freeRun = true
 				return true, nil
 			}
@@ -484,31 +490,9 @@ func (r *FetchRun) Drive(api *fakeipfs.API, schedule []Choice, start func(), can
 	return false, nil
 }
 
-// fetcherGoroutinesAllBlocked inspects the goroutine dump: every goroutine that is inside the library's
-// fetcher must be waiting (semaphore, mutex, condition variable, channel), none running or runnable.
+// fetcherGoroutinesAllBlocked: every goroutine inside the library's fetcher is waiting, none running.
 func fetcherGoroutinesAllBlocked() bool {
-	dump := Stacks()
-	found := false
-	for _, g := range strings.Split(dump, "\n\n") {
-		if !strings.Contains(g, "go-ipfs-log/entry.(*Fetcher)") {
-			continue
-		}
-		found = true
-		head := g
-		if i := strings.Index(g, "\n"); i > 0 {
-			head = g[:i]
-		}
-		blocked := false
-		for _, st := range []string{"semacquire", "sync.Cond.Wait", "sync.Mutex.Lock", "sync.RWMutex", "chan receive", "select", "sync.WaitGroup"} {
-			if strings.Contains(head, st) {
-				blocked = true
-			}
-		}
-		if !blocked {
-			return false
-		}
-	}
-	return found
+	return LibraryGoroutinesAllBlocked("go-ipfs-log/entry.(*Fetcher)")
 }
 
 // SetFree disables all gating: the loader runs on its own (real-time deadline runs).
